@@ -184,12 +184,17 @@ func c16check(r *mc.Recorder, cas string, tags []string, recs []c16rec, got map[
 		fail("export", "valid JSON", err.Error())
 		return
 	}
-	if !reflect.DeepEqual(norm16(back), norm16(got)) {
-		fail("export", fmt.Sprint(got), fmt.Sprint(back))
+	// "the same map": compared as Go values, so a list that was absent (nil) must not come back empty and vice versa
+	if !reflect.DeepEqual(back, got) {
+		what := fmt.Sprint(back)
+		if reflect.DeepEqual(norm16(back), norm16(got)) {
+			what = "equal but for absent (nil) lists that came back as empty ones, or the reverse"
+		}
+		fail("export", fmt.Sprint(got), what)
 	}
 }
 
-// norm16: nil and empty slices are not distinguished by the statement.
+// norm16 identifies nil and empty slices (used to word the report).
 func norm16(m map[string]rebase.Enzyme) map[string]rebase.Enzyme {
 	o := map[string]rebase.Enzyme{}
 	for k, e := range m {
